@@ -158,6 +158,11 @@ func c19R2(c *Ctx) {
 				if p, ok := fa.X.Type().(*types.Pointer); !ok || !isNamed(p.Elem(), ct.Named) {
 					continue
 				}
+				if k, isConst := st.Val.(*ssa.Const); isConst && k.IsNil() {
+					if _, lit := fa.X.(*ssa.Alloc); lit {
+						continue // `&list{ptr: nil, …}`: the zero value spelled out in the literal of a container allocated here
+					}
+				}
 				n++
 				ob := c.Ob("C19.R2", "ptr-store/"+a.FuncName(fn), e.Pos)
 				par, isParam := st.Val.(*ssa.Parameter)
